@@ -851,7 +851,7 @@ def check(ctx):
     ctx.explanation = EXPLANATION
     ctx.trusted = ["core::slice::Iter fold/rfold traverse ascending/descending; Zip pairs items in order", "rustc MIR construction"]
     ctx.assumptions = ["formatted Debug text is whatever DebugTuple/[T] print (delegation is checked, the string is not)"]
-    cfgs = ["F0", "F1"] if ctx.tier == "quick" else ["F0", "F1", "F2"]
+    cfgs = ["F0", "F1", "F1N"] if ctx.tier == "quick" else ["F0", "F1", "F1N", "F2", "F0N", "F2N"]
     ctx.need(*cfgs)
     for cfg in cfgs:
         it = It(ctx.db(cfg))
